@@ -26,7 +26,8 @@ Points == {"write", "read-first", "read-mid", "after-reply"}
 \* with vendor content - and then its reply; the connection is of no use any more, whatever the server sends on it afterwards)
 \* ("srvreq" before the reply: the server sends a well-formed REQUEST message of its own - a Query, a Notify - and then its reply. That is
 \* not a failure: the client is no server, it lets the message pass and goes on waiting for its response on the same connection)
-KindsAt(p) == IF p = "write" THEN {"eof", "closed", "reset", "short"} ELSE IF p = "read-first" THEN {"eof", "reset", "junk", "srvreq"} ELSE {"eof", "reset"}
+KindsAt(p) == IF p = "write" THEN {"eof", "closed", "reset", "short"} ELSE IF p = "read-first" THEN {"eof", "reset", "junk", "srvreq"}
+              ELSE IF p = "after-reply" THEN {"eof", "reset", "with-reply"} ELSE {"eof", "reset"}
 \* refuse: the server refuses the version negotiation it receives on the SECOND connection (an error item instead of the version list):
 \* when a failure inside Dial has made the client reconnect, the negotiation ends with an error on a connection that is alive - Dial
 \* fails, and the connection it had replaced the failed one with is given up like any other (closed, nothing left behind)
@@ -86,13 +87,19 @@ RetRefused == /\ pc = "busy" /\ replied /\ ~dead /\ Refused
               /\ result' = Append(result, "err") /\ pc' = "idle" /\ dead' = TRUE
               /\ UNCHANGED <<plan, exch, gen, sent, replied, tries, dials, attempts, budget, failedNow, fired, idleDeath>>
 
+\* ("with-reply": the server closes right after writing its reply, before the client has read it - the reply and the end of the stream
+\* reach the client together. The reply is there: the call gets it; the connection is found dead by the next call)
+FaultWithReply == /\ Applies /\ plan.pt = "after-reply" /\ plan.kind = "with-reply" /\ replied /\ ~idleDeath
+                  /\ idleDeath' = TRUE /\ fired' = fired + 1
+                  /\ UNCHANGED <<plan, exch, pc, gen, dead, sent, replied, tries, dials, attempts, budget, failedNow, result>>
+
 \* the response was read completely from a connection that had not failed
 RetResp == /\ pc = "busy" /\ replied /\ ~dead /\ ~Refused
-           /\ result' = Append(result, "resp") /\ pc' = "idle"
-           /\ UNCHANGED <<plan, exch, gen, dead, sent, replied, tries, dials, attempts, budget, failedNow, fired, idleDeath>>
+           /\ result' = Append(result, "resp") /\ pc' = "idle" /\ dead' = idleDeath
+           /\ UNCHANGED <<plan, exch, gen, sent, replied, tries, dials, attempts, budget, failedNow, fired, idleDeath>>
 
 \* the connection fails after the exchange is over (the read that waits for the next response)
-FaultAfter == /\ plan.pt = "after-reply" /\ pc = "idle" /\ ~dead /\ gen > 0 /\ result # <<>> /\ result[Len(result)] = "resp"
+FaultAfter == /\ plan.pt = "after-reply" /\ plan.kind # "with-reply" /\ pc = "idle" /\ ~dead /\ gen > 0 /\ result # <<>> /\ result[Len(result)] = "resp"
               /\ IF plan.persist THEN exch >= plan.exch ELSE exch = plan.exch /\ fired = 0
               /\ dead' = TRUE /\ fired' = fired + 1 /\ idleDeath' = TRUE
               /\ UNCHANGED <<plan, exch, pc, gen, sent, replied, tries, dials, attempts, budget, failedNow, result>>
@@ -102,7 +109,7 @@ RetErr == /\ pc = "busy" /\ failedNow
           /\ result' = Append(result, "err") /\ pc' = "idle"
           /\ UNCHANGED <<plan, exch, gen, dead, sent, replied, tries, dials, attempts, budget, failedNow, fired, idleDeath>>
 
-Next == Begin \/ Dial \/ Rx \/ FaultWrite \/ Reply \/ FaultRead \/ RetResp \/ RetRefused \/ FaultAfter \/ RetErr
+Next == Begin \/ Dial \/ Rx \/ FaultWrite \/ Reply \/ FaultRead \/ FaultWithReply \/ RetResp \/ RetRefused \/ FaultAfter \/ RetErr
 Spec == Init /\ [][Next]_vars /\ WF_vars(Next)
 
 TypeOK == /\ tries \in 0..8 /\ dials \in 0..8 /\ budget \in 0..3 /\ gen \in Nat /\ exch \in 0..MaxExch
